@@ -518,6 +518,13 @@ def replay(pid, r):
         out = {"flags": [n for n in FLAG_NAMES if f[n]], "well_defined_by_rule_table": wd, "exit": rc, "files_created": created, "requests": len(fake.log), "stderr": se.decode("utf-8", "replace")[-300:]}
         out["violation"] = (wd and rc != 0) or (not wd and (rc == 0 or bool(created) or len(fake.log) > 0))
         return out
+    if "session_before_hex" in r:
+        ops = [("b%d" % i, ["line", r["cfg"], h]) for i, h in enumerate(r["session_before_hex"])] + [("x", ["line", r["cfg"], hx(r["input"])])]
+        ses = go_exec(ops).get("x", "noanswer")
+        alone = go_exec([("x", ["line", r["cfg"], hx(r["input"])])]).get("x", "noanswer")
+        out = {"in_session": out_text(ses) or ses[:300], "alone": out_text(alone) or alone[:300], "violation": ses != alone,
+               "note": "only the last 40 lines of the history are recorded; a violation that needs a longer history re-runs through the check itself"}
+        return out
     if "input" in r or "input_hex" in r:
         b = unhxb(r["input_hex"]) if "input_hex" in r else r["input"].encode()
         res = go_exec([("r", ["line", r.get("cfg", "-"), hx(b)])])["r"]
@@ -1478,7 +1485,9 @@ def oracle_c12(tables, seed, tier, deep):
     for i, cs in enumerate(cases):
         base = [Cfg(), Cfg(n=True, b=True, i=True), Cfg(repl="X"), Cfg(re="^zq_nomatch$"), Cfg(repl="p.q_r"), Cfg(enc=3)][i % 6]
         if i % 7 == 3 and cs.ns:
-            base = Cfg(eager=(cs.ns.split(".")[0],))
+            # with --redactFieldNames: whole database, database with its dot, the exact namespace, a prefix cut inside a component
+            db = cs.ns.split(".")[0]
+            base = Cfg(eager=([db], [db + "."], [cs.ns], [cs.ns[:-1]], [db[:-1]], ["zz", cs.ns[:-2]])[(i // 7) % 6])
         pairs.append((cs, base))
     on = [(cs, Cfg(c.repl, c.n, c.b, c.i, True, c.eager, c.re, c.enc)) for cs, c in pairs]
     r_off = run_lines(pairs)
@@ -2369,3 +2378,134 @@ def with_tables(fn):
 
 
 ORACLES["C01"] = with_tables(ORACLES["C01"])
+
+
+# ------------------------------------------------------------------------------------------- history (sessions)
+# The redactor is specified line by line: what a line yields may depend on the line and on the flags,
+# never on the lines processed before it.  The session families of corr.session_ops are run (a) as
+# sessions - one harness process, setters called once - and (b) line by line, every (flags, line) pair in
+# a fresh process.  Any difference is a concrete history on which the output of a line depends on
+# earlier lines; what property that breaks depends on the flags of the session.
+
+_HIST = {}
+
+
+def history_records(tables, seed, tier, deep):
+    key = (seed, tier == "thorough" or deep)
+    if key in _HIST:
+        return _HIST[key]
+    import corr
+    from concurrent.futures import ThreadPoolExecutor
+    groups = corr.session_ops(tables, seed, 400 if key[1] else 24)
+    meta = dict(corr.SESSION_META)
+    res, mutated = corr.go_exec_groups(groups)
+    distinct = {}
+    for grp in groups:
+        for oid, f in grp:
+            if ".r" in str(oid):
+                continue
+            distinct.setdefault((f[1], f[2]), None)
+    keys = list(distinct)
+
+    def alone(k):
+        return go_exec([("a", ["line", k[0], k[1]])]).get("a", "noanswer")
+    with ThreadPoolExecutor(max_workers=16) as ex:
+        for k, r in zip(keys, ex.map(alone, keys)):
+            distinct[k] = r
+    recs = []
+    for grp in groups:
+        gid = str(grp[0][0]).split(".")[0]
+        before = []
+        for oid, f in grp:
+            if ".r" not in str(oid):
+                recs.append({"group": gid, "oid": str(oid), "cfg": meta.get(gid), "cfg_str": f[1], "line_hex": f[2], "session": res.get(str(oid), "noanswer"),
+                             "alone": distinct[(f[1], f[2])], "before": list(before[-40:]), "n_before": len(before)})
+            before.append(f[2])
+    out = {"records": recs, "mutated": mutated, "groups": len(groups), "lines": sum(len(g) for g in groups), "alone_runs": len(keys)}
+    _HIST[key] = out
+    return out
+
+
+HISTORY_SCOPE = {
+    "C06": lambda c: True,
+    "C07": lambda c: True,
+    "C02": lambda c: not c.enc and not c.re and not c.eager,
+    "C05": lambda c: not c.enc and not c.re and not c.eager,
+    "C13": lambda c: bool(c.w or c.eager),
+    "C12": lambda c: bool(c.w),
+    "C14": lambda c: bool(c.re),
+    "C15": lambda c: bool(c.eager),
+    "C09": lambda c: bool(c.enc),
+    "C10": lambda c: bool(c.enc),
+    "C01": lambda c: not c.re,
+    "C04": lambda c: True,
+    "C19": lambda c: not c.enc and not c.re and not c.eager and not c.w,
+}
+HISTORY_WHY = {
+    "C06": "each output line must equal what its input line yields when processed on its own",
+    "C07": "malformed lines must leave the processing of all other lines as usual",
+    "C02": "the emitted line must be a function of the (non-sensitive part of the) line alone",
+    "C05": "the placeholder must be the constant of the leaf's own class - not of what earlier lines contained",
+    "C13": "a pseudonym depends only on the name component and the prefix: identical across lines",
+    "C12": "each name is always replaced by the same pseudonym, nothing else differs",
+    "C14": "the choice depends only on the names on the path",
+    "C15": "renaming is decided by the line's own namespace only",
+    "C09": "every ciphertext decrypts to exactly its own original",
+    "C10": "ciphertexts are a function of the plaintext and the key",
+    "C01": "a literal that is redacted when the line is processed alone must not survive because of earlier lines",
+    "C04": "what is kept and what is changed is decided per line",
+    "C19": "redaction of a line does not depend on earlier lines",
+}
+
+
+def history_violations(pid, tables, seed, tier, deep):
+    h = history_records(tables, seed, tier, deep)
+    scope = HISTORY_SCOPE[pid]
+    viol = []
+    n = 0
+    tokre = pyre.compile(r"zq\d+x[se]")
+    for r in h["records"]:
+        c = r["cfg"]
+        if c is None or not scope(c):
+            continue
+        n += 1
+        if r["session"] == r["alone"]:
+            continue
+        so, ao = out_text(r["session"]), out_text(r["alone"])
+        if pid == "C01":
+            leaked = [t for t in set(tokre.findall(so or "")) if t not in (ao or "")]
+            if not leaked:
+                continue
+            site = "history:literal-survives-after-earlier-lines"
+        elif pid == "C07":
+            if ".t" not in r["oid"]:
+                continue
+            site = "history:well-formed-line-after-malformed-lines"
+        else:
+            site = "history:line-output-depends-on-earlier-lines"
+        viol.append({"site": site, "why": HISTORY_WHY[pid], "cfg": r["cfg_str"], "input": unhx(r["line_hex"]), "session_before_hex": r["before"], "lines_before": r["n_before"],
+                     "in_session": (so if so is not None else r["session"])[:1500], "alone": (ao if ao is not None else r["alone"])[:1500], "group": r["group"]})
+    if pid == "C06":
+        for gid in h["mutated"]:
+            viol.append({"site": "history:operator-tables-changed-in-place", "why": "the operator tables are constants of the program; a session left them changed", "group": gid, "input": ""})
+    return viol, n, h
+
+
+def with_history(pid, fn):
+    def wrapped(tables, seed, tier, deep):
+        r = fn(tables, seed, tier, deep)
+        v, n, h = history_violations(pid, tables, seed, tier, deep)
+        if v:
+            r["violations"] = result(r["violations"] + v, 0, 0, "", {}, [])["violations"]
+            r["stats"]["summary"]["violating_sites"] = len(r["violations"])
+        r["stats"]["evaluations"] += n
+        r["stats"]["summary"]["evaluations"] = r["stats"]["evaluations"]
+        r["stats"]["summary"]["history_lines"] = n
+        r["stats"]["rule"] += "; plus history independence: %d session lines in scope (%d sessions, every (flags, line) pair also run alone in a fresh process; a line's output in the session must equal its output alone - %s)" % (n, h["groups"], HISTORY_WHY[pid])
+        return r
+    return wrapped
+
+
+for _pid in HISTORY_SCOPE:
+    if _pid in ORACLES:
+        ORACLES[_pid] = with_history(_pid, ORACLES[_pid])
